@@ -1160,6 +1160,11 @@ class Sequence:
         returns a tuple of (dmax, seqDeltaMax)
         """
 
+        # dmax is already known (cached by an earlier call, or handed to the constructor) but the
+        # permutant was never built: forget the cached value so the search below runs and records it
+        if returnSeqDeltaMax and self.seqDeltaMax is None:
+            self.dmax = -1
+
         # If this has been computed already, then return it
         if self.dmax != -1 and not returnSeqDeltaMax:
           return self.dmax
